@@ -102,8 +102,10 @@ def merge_results(results: typing.Sequence[Result]) -> Result:
 
     # Determine merge strategy:
     strategy = "average"
-    length_lists = [[a.size for a in r.np_arrays.values()] for r in results]
-    if not all(a == b for a, b in zip(length_lists, length_lists[1:])):
+    # Compare the lengths per key (the key order may differ between results).
+    lengths = [{key: a.size for key, a in r.np_arrays.items()}
+               for r in results]
+    if not all(a == b for a, b in zip(lengths, lengths[1:])):
         logger.warning("Appending raw value arrays due to different lengths.")
         strategy = "append"
     else:
